@@ -6,7 +6,7 @@
 set -u
 jobs="$(readlink -f "$1")"; n="$2"; out="$(readlink -f -m "$3")"
 export GOFLAGS=-mod=mod GOPROXY=off
-root=/tmp/par; rm -rf $root; mkdir -p $root; : > "$out"
+root=${PAR_ROOT:-/tmp/par}; rm -rf $root; mkdir -p $root; : > "$out"
 worker() {
   local k=$1 d=$root/$1
   mkdir -p $d
